@@ -145,6 +145,7 @@ fn alpha(_cfg: &Cfg) -> Vec<Op> {
         c(Ri),
         c(Seq(vec![Cup(None, None), Il(Some(1))])),
         c(Decstbm(Some(1), Some(2))),
+        c(Decstbm(Some(2), Some(3))),
         c(Decstbm(None, None)),
         c(sgr1(41)),
         c(DecSet(vec![1047])),
